@@ -28,7 +28,8 @@ CFG = dict(
                  "3": "a per-id projection of what the SERVER wrote is rejected by the protocol automaton proto_s2c",
                  "4": "a handler returned on a stream that its caller had not reset, on a live connection, and no trailer envelope was written",
                  "5": "the server wrote an envelope for an id it had not received, or a response that does not swap the request's source and destination, or a reset that answers no received body",
-                 "6": "the run wedged (watchdog)"},
+                 "6": "the run wedged (watchdog)",
+                 "7": "a unary request on a live connection whose method has returned has no response envelope (or more than one) at the end of the run"},
     rule="lock-step in synctest bubbles; Rig A (real client, scripted peer): ALL words of length <= 4 (thorough 5) over {send, closesend, recv, cancel, "
          "deadline expiry, peer body, peer trailer, unary call + reply, write failure} after the open, API-conformant; Rig B (real server, scripted "
          "protocol-conformant client): ALL words of length <= 5 (thorough 6) over {client body, close, reset; handler recv, send, set+send header, "
